@@ -7,16 +7,24 @@ go-libp2p-raft@v0.1.7 fsm.go/codec.go/consensus.go, hashicorp/raft@v1.1.1 snapsh
 * the committed sequence `ops` of `LogOp`s is a parameter (Raft gives every member the same sequence:
   trusted); a log entry is msgpack(LogOp{Cid: pin, Type}) — for an unpin the WHOLE pin travels too;
 * `FSM.Apply`: decode onto the one shared `LogOp` (`baseOp`), then `LogOp.ApplyTo`:
-  pin ↦ `state.Add` (protobuf form of the pin = `Pin.stored`) then async `PinTracker.Track(pin)`,
-  unpin ↦ `state.Rm(pin.Cid)` then async `PinTracker.Untrack(pin)`; `initialized := true`.
-  An op whose pin has origins cannot be decoded (`[]multiaddr.Multiaddr`): the fallback "is it a
+  pin ↦ `state.Add` (protobuf form of the pin = `Pin.stored`) then `PinTracker.Track(pin)`,
+  unpin ↦ `state.Rm(pin.Cid)` then `PinTracker.Untrack(pin)`, both called SYNCHRONOUSLY
+  (`rpcClient.CallContext`, since 2ba6875; an error of the tracker is logged, not returned);
+  `initialized := true`.
+  An op whose pin has origins (or an undefined cid / reference) cannot be decoded. Since 3d753d4
+  `commit()` refuses such an op before any attempt (`Model/C01Commit.lean`, `Model/C01Gate.lean`:
+  it never reaches the log), so the following corner is NOT reachable through LogPin / LogUnpin
+  any more (`gated_never_inconsistent`); it is kept as the FSM's behaviour on a raw log entry
+  (written by a peer without that check): the fallback "is it a
   rollback" decode (`dsstate.Unmarshal` of the same bytes) is rejected too, so
   `inconsistent := true`, nothing else changes, `Apply` returns nil — and `LogOp.Cid` keeps pointing
   at the half-decoded pin (`poisoned`): the next pin op is decoded onto it, keeps the `[nil,…]`
   origins and panics in `ProtoMarshal` (process crash); `ApplyTo` nils `LogOp.Cid` first, so an unpin
   op clears the stale pointer without a crash. A decodable op applied while `inconsistent` still
   changes the store (Apply does not look at the flag);
-* the tracker calls are dispatched asynchronously (`GoContext`, a goroutine each): `arrivalAllowed`;
+* the tracker calls are made synchronously from the FSM goroutine: the tracker receives them in the
+  order the entries are applied (`arrivalAllowed` = equality; `arrivalAllowedAsync` is the dispatch the
+  code had before 2ba6875, kept as a refuted alternative);
 * `FSM.Snapshot()` only returns a handle (refused when not initialized or inconsistent); the state is
   serialised by `Persist()`, which hashicorp/raft calls later while entries keep being applied:
   `snapBegin` records the index, `snapPersist` captures the store AS IT IS THEN;
@@ -82,9 +90,17 @@ def Call.isTrack : Call → Bool
   | .track _ => true
   | .untrack _ => false
 
-/-- `ApplyTo` dispatches with `rpcClient.GoContext`: one goroutine per call, not awaited. The calls of
-    entries applied back to back may therefore reach the tracker in any order. -/
-def arrivalAllowed (dispatched arrived : List Call) : Bool := arrived.isPerm dispatched
+/-- `ApplyTo` calls the tracker with `rpcClient.CallContext` and waits for the answer before it returns:
+    the calls of entries applied back to back reach the tracker in exactly that order. -/
+def arrivalAllowed (dispatched arrived : List Call) : Bool := arrived == dispatched
+
+/-- the code before 2ba6875: `rpcClient.GoContext`, one goroutine per call, not awaited — the calls of
+    entries applied back to back could reach the tracker in any order (refuted alternative, see
+    `async_handoff_order_fails`) -/
+def arrivalAllowedAsync (dispatched arrived : List Call) : Bool := arrived.isPerm dispatched
+
+/-- the calls `ApplyTo` makes for the committed entries `a .. a+k-1`, in log order -/
+def sentFor (ops : List Op) (a k : Nat) : List Call := ((ops.drop a).take k).map callOf
 
 structure Snap where
   idx : Nat
@@ -206,6 +222,23 @@ def step (ops : List Op) (s : Sys) (i : Nat) (e : Ev) : Sys × StepOut :=
 
 def run (ops : List Op) (s : Sys) (evs : List (Nat × Ev)) : Sys :=
   evs.foldl (fun s ie => (step ops s ie.1 ie.2).1) s
+
+/-- the calls the tracker of peer `i` receives while the system goes through `evs`, in the order they
+    are made (each is awaited before the FSM goes on) -/
+def callsAt (ops : List Op) (i : Nat) : Sys → List (Nat × Ev) → List Call
+  | _, [] => []
+  | s, (j, e) :: rest =>
+    (if j = i then (step ops s j e).2.calls else []) ++ callsAt ops i (step ops s j e).1 rest
+
+def Ev.isReset : Ev → Bool
+  | .restart => true
+  | .install _ => true
+  | _ => false
+
+/-- no event of the schedule restarts peer `i` or installs a snapshot on it: one incarnation of its
+    tracker, fed by the log alone -/
+def noReset (i : Nat) (evs : List (Nat × Ev)) : Bool :=
+  evs.all (fun ie => !(ie.1 == i && ie.2.isReset))
 
 /-- what `Consensus.State()` serves -/
 inductive View where
